@@ -500,3 +500,54 @@ Definition names_decl (sc : scope) (n : str) : bool :=
   || existsb (fun p => leqb n (fst p)) (s_param sc)
   || existsb (fun p => path_eqb [n] (fst p)) (s_std sc)
   || leqb n s_this_name || leqb n s_that_name.
+
+(* ---- columns excluded from a relation with unknown columns (finding C10-F6) ----
+   `select !{a}` on an input that still has its wildcard leaves `LineageColumn::All { input, except: {a} }`: the frame does
+   not know its columns, but it knows that `a` is not one of them.  Module::insert_frame does not carry `except` into the
+   namespace and resolve_ident's `_infer` fallback (infer_decl) does not consult it, so [resolve] -- the faithful model --
+   is the implementation; [lower_ref_x] is what the property demands.  (`group` uses the same `except` for its own
+   bookkeeping -- the key columns of the inner frame, which ARE referenced through `_infer` -- so the exclusions meant here
+   are those a user wrote with `select !{..}`; see design.d/C10.md, repair blocked.) *)
+Definition excl := list (nat * str).          (* (index of the input in `this`, excluded column) *)
+
+Definition excluded_inference (ex : excl) (sc : scope) (id : ident) : bool :=
+  match resolve sc id with
+  | RInferred (IInput false i) => existsb (fun p => Nat.eqb (fst p) i && leqb (snd id) (snd p)) ex
+  | _ => false
+  end.
+
+Definition lower_ref_x (ex : excl) (c : cfg) (sc : scope) (id : ident) : outcome :=
+  if excluded_inference ex sc id then OErr EUnknown else lower_ref c sc id.
+
+(* ---- the names of a tuple's fields after `select` / `derive` (Lineage::apply_assign; finding C10-F5) ----
+   A field is a column kept with the prefix of its relation (Some i, n) -- `x.id` -- or something named without one
+   (None, n) -- an alias `id = ..`, a bare column.  apply_assign: "remove names from columns with the same name": an earlier
+   field loses its name as soon as a LATER field has the same last name, whatever relation either belongs to.  That is
+   what makes `derive {a = a + 1}` replace a; applied to `select {x.id, y.id}` it leaves ONE column called id (y's), x.id is
+   unnamed, and the bare name is not ambiguous.  [unname_spec] compares the relation prefix too (the blocked repair). *)
+Definition field := (option nat * str)%type.
+
+Definition same_name (f g : field) : bool := leqb (snd f) (snd g).
+Definition same_slot (f g : field) : bool :=
+  same_name f g && match fst f, fst g with Some i, Some j => Nat.eqb i j | _, _ => true end.
+
+Fixpoint unname (fs : list field) : list (option field) :=
+  match fs with
+  | [] => []
+  | f :: r => (if existsb (same_name f) r then None else Some f) :: unname r
+  end.
+
+Fixpoint unname_spec (fs : list field) : list (option field) :=
+  match fs with
+  | [] => []
+  | f :: r => (if existsb (same_slot f) r then None else Some f) :: unname_spec r
+  end.
+
+(* a field whose name is taken by a later field of ANOTHER relation and by no field of its own slot *)
+Definition stolen (f : field) (r : list field) : bool := existsb (same_name f) r && negb (existsb (same_slot f) r).
+Fixpoint dup_across (fs : list field) : bool :=
+  match fs with [] => false | f :: r => stolen f r || dup_across r end.
+
+(* how many fields answer to the bare name n afterwards *)
+Definition named (n : str) (l : list (option field)) : nat :=
+  length (filter (fun o => match o with Some f => leqb n (snd f) | None => false end) l).
